@@ -1,8 +1,9 @@
-\* C19 keybase, exhaustive: 3 keys (2 held by the client, 1 created inside), 4 passphrases (empty, white space only, a base
+\* C19 keybase, exhaustive: 3 keys (1 raw ed25519 and 1 secp256k1 held by the client, 1 created inside), 4 passphrases (empty, white space only, a base
 \* passphrase, the base padded with white space), at most 1 exported armor kept; every transition is checked against StepOK (VIEW leaves the label and the history out)
 CONSTANTS
     NK = 3
     NKnown = 2
+    Secp = {2}
     Passes = {"e", "w", "u", "v"}
     MaxArm = 1
     Depth = 0
